@@ -60,7 +60,9 @@ func ivals(k kind) []string {
 
 func fvals(k kind) (lits []string, extra string) {
 	if k.name == "float32" {
-		lits = []string{"0", "1", "-1", "0.5", "0.1", "2.5", "-7.75", "1e10", "-1e-10", "3.4e38", "1e-45", "16777216", "16777217"}
+		lits = []string{"0", "1", "-1", "0.5", "0.1", "2.5", "-7.75", "1e10", "-1e-10", "3.4e38", "1e-45", "16777216", "16777217",
+			// within half a float64 ulp above a float32 rounding midpoint: one rounding goes up, two roundings (via float64) go down
+			"1.00000005960464478", "-1.00000005960464478", "0.50000002980232239", "16777217.0000000001"}
 	} else {
 		lits = []string{"0", "1", "-1", "0.5", "0.1", "2.5", "-7.75", "1e10", "-1e-10", "1.7e308", "5e-324", "9007199254740992", "9007199254740993"}
 	}
